@@ -33,6 +33,22 @@ Theorem C11_emptyqueue_true_iff :
 Proof. exact emptyq_true_iff. Qed.
 Print Assumptions C11_emptyqueue_true_iff.
 
+(* the same for the property's second observer, waitFor that times out (here with a zero time-out, from a listener or
+   between operations, no DisableQueueNotify): it does not time out while an event is in dispatch, and it times out
+   exactly when nothing is pending and nothing is in dispatch — for the predicate doCanProcess as it is in the header *)
+Theorem C11_waitfor_does_not_time_out_while_in_dispatch :
+  forall mech ordered klt behav pbehav rec st,
+    1 <= ecount st -> q_step mech ordered klt behav pbehav rec st QWaitFor0 = Some (qlog st (QRet true)).
+Proof. exact waitfor0_true_when_busy. Qed.
+Print Assumptions C11_waitfor_does_not_time_out_while_in_dispatch.
+
+Theorem C11_waitfor_times_out_iff :
+  forall mech ordered klt behav pbehav rec st st',
+    q_step mech ordered klt behav pbehav rec st QWaitFor0 = Some st' ->
+    (qtrace st' = QRet false :: qtrace st <-> qlist st = [] /\ ecount st = 0).
+Proof. exact waitfor0_false_iff. Qed.
+Print Assumptions C11_waitfor_times_out_iff.
+
 (* the order of the two reads in the header (tie A): the list first, the counter second —
    the order on which the argument for concurrent observers rests *)
 Theorem C11_reads_list_then_counter : GenQ.empty_queue_reads = [0; 1].
